@@ -139,7 +139,7 @@ CHECKS = {
         "level": "fault_enumeration",
         "units": [
             unit("c18-big", "big", ["zz_verif_c18_test.go"], "^TestVerifC18", shards={"quick": 2, "thorough": 4}),
-            unit("c18-gabikeys", "gabikeys", ["zz_verif_c18_test.go"], "^TestVerifC18", shards={"quick": 4, "thorough": 8}),
+            unit("c18-gabikeys", "gabikeys", ["zz_verif_c18_test.go", "zz_verif_c18_crash_test.go"], "^TestVerifC18(Key|Crash)", shards={"quick": 4, "thorough": 8}),
             unit("c18-root", "root", ["zz_verif_c18_test.go", "zz_verif_c06_test.go", "zz_verif_c11_test.go", "zz_verif_c14_test.go"], "^TestVerifC18", shards={"quick": 8, "thorough": 8}),
         ],
         "assumptions": ["checks run as root: permission *enforcement* is not observable, only the resulting mode bits"],
